@@ -9,7 +9,7 @@ CLAIM = dict(cat="proof", design="§3 C17, Appendix A.6",
         "every intermediate stays below 2^162 resp. 2^272 so the fixed-width Boost integers are exact; any permutation of the 4/5 points multiplies the result by its parity (all 24/120 permutations); and FULL filter soundness "
         "(Flocq): whenever the binary64 filter with the error bound written in the header decides, its answer is the exact sign, it never answers 0, hence the adaptive predicates return the exact real sign. "
         "Tie: the real functions (with Boost.Multiprecision) and the extracted model are compared on random, exactly degenerate (lattice) and 1..1000-ulp perturbed inputs (exact sign, adaptive sign, whether the filter decided, "
-        "filter answer), plus an independent big-integer oracle on every real output.",
+        "filter answer), plus an independent big-integer oracle on every real output. Rescaling tie: the real NewVoronoiGrid is built (C15 harness) on boxes whose sides are / are not exactly representable fractions and every internal coordinate handed to the predicates (generators, wall copies, all-encompassing tetrahedron) must lie in [1,2).",
    note="Trusted: Coq kernel, standard real/classical axioms and the PrimFloat/Uint63 specification axioms reported by Print Assumptions (through Flocq/Interval); extraction + OCaml driver for the correspondence. "
         "Assumes the ISO build the project uses (no -ffast-math/FMA contraction: the proved expression is the one in the header, operation by operation); inputs in [1,2) are a caller contract.",
    technique="Coq proof (integer determinants by ring/bounds, Flocq running-error analysis for the filter) + differential correspondence")
@@ -356,8 +356,45 @@ def build(ck):
     return ok1 and ok2, log1 + log2, ok3, log3
 
 
+def rescaling_precondition(ck):
+    """third mechanism of the property: the Voronoi grid rescales every coordinate it hands to the predicates into [1,2) (where the 52-bit
+    mantissa IS the coordinate).  The real NewVoronoiGrid is built on boxes whose sides are and are not representable fractions and the
+    internal representation (generators, wall copies, all-encompassing tetrahedron) is read back through the C15 harness."""
+    import c15
+    d = os.path.join(ck.scratch, "rescale")
+    os.makedirs(d, exist_ok=True)
+    ok3, log3 = vf.cxx_build(c15.HARNESS, os.path.join(d, "impl"), libs=False, openmp=True)
+    if not ok3:
+        ck.breaks.append("rescaling harness (harness/c15/voronoi_harness.cpp) does not compile against /repo/src:\n" + log3[-1500:])
+        return 0
+    rng = ck.rng
+    boxes = [((0., 0., 0.), (s, s, s)) for s in (1., 1.2, 1.3, 2., 2.5, 3., 5., 7., 10., 20., 100., 0.1, 1e-5, 3.086e17)]
+    boxes += [((-1.3, 2.7, 1000.), (1.2, 2.5, 5.)), ((1e-3, 2e-3, -5e-4), (1e-5, 3e-5, 2e-5))]
+    for _ in range(20 if ck.quick else 200):
+        a, sd = c15.gen_box(rng, c15.BOX_KINDS[rng.below(len(c15.BOX_KINDS))])
+        boxes.append((tuple(a), tuple(sd)))
+    probs = [dict(cls="rescale", box="-", anchor=a, sides=sd, pts=[c15.inbox(a, sd, (0.3, 0.4, 0.6)), c15.inbox(a, sd, (0.7, 0.2, 0.5)), c15.inbox(a, sd, (1.0, 1.0, 1.0)), c15.inbox(a, sd, (0.0, 0.0, 0.0))], qs=[], label="") for a, sd in boxes]
+    rc, res = c15.run_harness(os.path.join(d, "impl"), probs, lambda p: ["N1"], env={"C15_ALARM": "20"})
+    n = 0
+    for p, r in zip(probs, res):
+        N = r.get("N1")
+        if not N or N.get("P") is None:
+            continue
+        n += 1
+        if N["P"][0] != 1:
+            corners = [c15.bd(x) for x in N["T"]]
+            off = [c for c in corners if not (1.0 <= c < 2.0)]
+            ck.violation("C17 (rescaling into [1,2)): NewVoronoiGrid hands the exact predicates a coordinate outside [1,2) for the box anchor %r sides %r: %r among the internal coordinates of the "
+                         "all-encompassing tetrahedron %r - the 52-bit mantissa read by ExactGeometricTests is then not the coordinate (2.0 reads as 1.0), so orient3d/insphere answer for a different point"
+                         % (p["anchor"], p["sides"], off[:4], corners), {"rescale_box": {"anchor": list(p["anchor"]), "sides": list(p["sides"])}}, key={"kind": "rescaling_out_of_range"})
+            break
+    ck.coverage["rescaling_boxes_checked"] = n
+    return n
+
+
 def run(ck):
     ok_proof = ck.prove(timeout=1400)
+    rescaling_precondition(ck)
     d = ck.scratch
     okm, logm, ok3, log3 = build(ck)
     ck.log("built: model=%s harness=%s" % (okm, ok3))
@@ -515,6 +552,12 @@ def run(ck):
 
 
 def replay(ck, rp):
+    if "rescale_box" in rp.get("replay", {}):
+        ck.quick = True
+        rescaling_precondition(ck)
+        bad = [v for v in ck.violations if v["key"].get("kind") == "rescaling_out_of_range"]
+        print("REPLAY:", bad[0]["what"] if bad else "property holds on this input")
+        return 1 if bad else 0
     okm, logm, ok3, log3 = build(ck)
     line = rp["replay"]["line"]
     rc, out = vf.run_lines([os.path.join(ck.scratch, "impl")], line + "\n")
